@@ -31,6 +31,9 @@ type c04Case struct {
 	Msgs        []c04Msg                   `json:"msgs"`
 	Steps       map[string]refsmtp.Outcome `json:"steps,omitempty"`
 	DialAndSend bool                       `json:"dial_and_send"`
+	// Prior: the same Client has had an earlier connection (dial + close) to a server that advertised
+	// EVERY extension; what it learnt there does not count for the judged connection.
+	Prior bool `json:"prior,omitempty"`
 }
 
 var tagRe = regexp.MustCompile(`\[([a-z]+)#([0-9]+)(?:\.([0-9]+))?\]`)
@@ -56,6 +59,28 @@ func c04Exec(c *c04Case) (*c04Result, *core.Violation) {
 	for i, mm := range c.Msgs {
 		out.msgs = append(out.msgs, simpleMsg(i+1, mm.NRcpt, mm.Enc))
 	}
+	first := 0
+	if c.Prior {
+		full := refsmtp.NewServer(refsmtp.Script{Caps: []string{"8BITMIME", "SMTPUTF8", "DSN", "ENHANCEDSTATUSCODES", "PIPELINING", "STARTTLS", "AUTH PLAIN LOGIN CRAM-MD5"},
+			CapsTLS: []string{"8BITMIME", "SMTPUTF8", "DSN", "ENHANCEDSTATUSCODES", "PIPELINING", "AUTH PLAIN LOGIN CRAM-MD5"}, NoGreetProbe: true})
+		full.Auth = acceptAnyAuth
+		full.TLS = serverTLS(0)
+		d.Srv = full
+		pr := watchdog(20*time.Second, d, func() error {
+			if err := cl.DialWithContext(context.Background()); err == nil {
+				_ = cl.Close()
+			}
+			return nil
+		})
+		if pr.TimedOut || pr.Panic != nil {
+			d.Shutdown()
+			out.res = pr
+			return out, nil
+		}
+		d.Wait(2 * time.Second)
+		first = len(d.Sessions)
+		d.Srv = srv
+	}
 	out.res = watchdog(20*time.Second, d, func() error {
 		if c.DialAndSend {
 			out.sendErr = cl.DialAndSendWithContext(context.Background(), out.msgs...)
@@ -69,8 +94,8 @@ func c04Exec(c *c04Case) (*c04Result, *core.Violation) {
 		return nil
 	})
 	d.Shutdown()
-	if len(d.Sessions) > 0 {
-		out.sess = d.Sessions[0]
+	if len(d.Sessions) > first {
+		out.sess = d.Sessions[first]
 	}
 	return out, nil
 }
@@ -201,7 +226,7 @@ func c04Run(c c04Case) []*core.Violation {
 		}
 	}
 	if faults > 0 || suppressed {
-		rec.NonTrivial(core.Join(strings.Join(c.Caps, ","), strings.Join(c.CapsTLS, ","), c.Cfg.TLS, c.Cfg.Auth, c.Cfg.DSN, fmt.Sprint(c.Msgs), strings.Join(keys, ","), c.DialAndSend))
+		rec.NonTrivial(core.Join(strings.Join(c.Caps, ","), strings.Join(c.CapsTLS, ","), c.Cfg.TLS, c.Cfg.Auth, c.Cfg.DSN, fmt.Sprint(c.Msgs), strings.Join(keys, ","), c.DialAndSend, c.Prior))
 		rec.Sample(fmt.Sprintf("%d/%v", faults, c.DialAndSend), map[string]interface{}{"caps": c.Caps, "cfg": c.Cfg, "msgs": c.Msgs, "faults": keys, "steps_seen": s.Steps})
 	}
 	rec.Class(fmt.Sprintf("faults:%d", faults))
@@ -281,7 +306,7 @@ func c04GenCfg(t *rapid.T) (smtpCfg, []string, []string) {
 
 func c04Gen(t *rapid.T) c04Case {
 	cfg, caps, capsTLS := c04GenCfg(t)
-	c := c04Case{Cfg: cfg, Caps: caps, CapsTLS: capsTLS, DialAndSend: rapid.Bool().Draw(t, "dialandsend")}
+	c := c04Case{Cfg: cfg, Caps: caps, CapsTLS: capsTLS, DialAndSend: rapid.Bool().Draw(t, "dialandsend"), Prior: rapid.IntRange(0, 3).Draw(t, "prior") == 0}
 	n := rapid.IntRange(1, 3).Draw(t, "nmsgs")
 	for i := 0; i < n; i++ {
 		c.Msgs = append(c.Msgs, c04Msg{NRcpt: rapid.IntRange(1, 3).Draw(t, "nrcpt"), Enc: rapid.SampledFrom([]string{"quoted-printable", "base64", "8bit"}).Draw(t, "enc")})
@@ -306,7 +331,7 @@ func c04Gen(t *rapid.T) c04Case {
 
 func c04Describe() {
 	rec := core.Rec("C04")
-	rec.Rule = "sessions of the real Client against the strict reference server (own RFC 5321 command parser + transaction automaton) over in-memory connections. Random part: rapid draws the advertised capability subset of {8BITMIME, SMTPUTF8, DSN, ENHANCEDSTATUSCODES, STARTTLS, AUTH} (optionally a different set after STARTTLS), TLS policy, AUTH on/off, DSN off/WithDSN/custom RET+NOTIFY, 1..3 messages x 1..3 recipients with QP/base64/8bit encoding, Send on a dialled client or DialAndSend, and 0..5 non-ok replies (4yz, 5yz, drop, 421+close) at drawn step ids. " +
+	rec.Rule = "sessions of the real Client against the strict reference server (own RFC 5321 command parser + transaction automaton) over in-memory connections. Random part: rapid draws the advertised capability subset of {8BITMIME, SMTPUTF8, DSN, ENHANCEDSTATUSCODES, STARTTLS, AUTH} (optionally a different set after STARTTLS), TLS policy, AUTH on/off, DSN off/WithDSN/custom RET+NOTIFY, 1..3 messages x 1..3 recipients with QP/base64/8bit encoding, Send on a dialled client or DialAndSend, one case in four as the SECOND connection of a Client whose first connection (dial + close) met a server advertising every extension, and 0..5 non-ok replies (4yz, 5yz, drop, 421+close) at drawn step ids. " +
 		"Enumerated part (TestC04Enum): for every capability subset (64; 8 in quick) x 2 client configurations x batch 2x2, the fault-free run is recorded and then EVERY step id it contains is replaced by each of {4yz, 5yz, drop} (all <= 1-fault scripts), and every rejected MAIL/RCPT/DATA combined with a refused abandoning RSET; thorough additionally all 2-fault scripts for four capability sets. " +
 		"Oracle: no automaton violation (bytes before greeting, command before EHLO, nested MAIL, RCPT without MAIL, DATA without or after a rejected recipient, unadvertised or mis-formed ESMTP parameter, pipelining, malformed command), no MAIL for an 8bit message without 8BITMIME, RET/NOTIFY exactly as configured, and the reply tag quoted by each SendError belongs to the command kind and transaction named by its Reason. " +
 		"Non-trivial: >= 1 non-ok reply, or a capability set that suppresses a configured parameter. Distinct by (capabilities, config, batch, fault script)."
